@@ -76,6 +76,7 @@ pub fn gen_rules_world(seed: u64) -> SupplyTrace {
     let keys: Vec<KeySpec> = (0..n + 1).map(|i| KeySpec { kind: KeyKind::Ed, seed: (seed % 97) * 10 + i as u64 }).collect();
     let names: Vec<String> = (0..n).map(|i| format!("s{i}")).collect();
     let mut ctr = r.below(5);
+    let both = r.chance(1, 4);
     let mut steps = vec![];
     let mut files = vec![];
     let mut labels = vec![];
@@ -106,6 +107,14 @@ pub fn gen_rules_world(seed: u64) -> SupplyTrace {
                     let k = mats.keys().nth(r.idx(mats.len())).unwrap().clone();
                     mats.insert(k, gen::digest_of(900 + ctr, false));
                     labels.push("A-TAMPER".to_string());
+                }
+                4 if !mats.is_empty() && both => {
+                    // tampered in one of its two digests only
+                    let k = mats.keys().nth(r.idx(mats.len())).unwrap().clone();
+                    if let Some(d) = mats.get_mut(&k) {
+                        d.insert("sha512".into(), gen::sha512_hex(b"tampered"));
+                    }
+                    labels.push("A-TAMPER-ONE-DIGEST".to_string());
                 }
                 1 => {
                     mats.insert(r.pick(UNIVERSE).to_string(), gen::digest_of(800 + ctr, false));
@@ -142,6 +151,16 @@ pub fn gen_rules_world(seed: u64) -> SupplyTrace {
         for _ in 0..r.below(3) {
             ctr += 1;
             prods.insert(r.pick(UNIVERSE).to_string(), gen::digest_of(ctr % 7, false));
+        }
+        if both {
+            for a in [&mut mats, &mut prods] {
+                for (p, d) in a.iter_mut() {
+                    if !d.contains_key("sha512") {
+                        let h = d.get("sha256").cloned().unwrap_or_default();
+                        d.insert("sha512".into(), gen::sha512_hex(format!("{p}{h}").as_bytes()));
+                    }
+                }
+            }
         }
         steps.push(StepSpec { name: names[i].clone(), threshold: 1, pubkeys: vec![i + 1], exp_mat: rule_list(&mut r, &names), exp_prod: rule_list(&mut r, &names), cmd: vec![] });
         let link = LinkSpec { name: names[i].clone(), materials: mats, products: prods.clone(), stdout: Some(String::new()), stderr: Some(String::new()), retval: Some(0), other: BTreeMap::new(), command: vec![], env: None };
